@@ -324,9 +324,12 @@ func (r *vC18Run) stop(n *vC18Node) {
 	// goroutines (the Shutdown future is not awaited): stopping a node whose leader
 	// loop is still committing panics inside hashicorp/raft ("database not open").
 	// That shutdown race is outside C18 - stop only a Raft node that is idle.
+	// Likewise a server stopped in the middle of its leader promotion panics in the
+	// leadership loop ("error on metadata leadership step down"): let it finish.
 	if rn := srv.getRaft(); rn != nil {
 		for end := time.Now().Add(2 * time.Second); time.Now().Before(end); {
-			if rn.AppliedIndex() >= rn.LastIndex() && rn.getCommitIndex() >= rn.LastIndex() {
+			promoting := rn.State() == raft.Leader && !srv.IsLeader()
+			if !promoting && rn.AppliedIndex() >= rn.LastIndex() && rn.getCommitIndex() >= rn.LastIndex() {
 				break
 			}
 			time.Sleep(time.Millisecond)
